@@ -160,6 +160,7 @@ func (sh *Shared) SourceHashes(funcs map[string]bool) map[string]string {
 }
 
 type RunOpts struct {
+	KnownLabels map[string][]string
 	MaxSteps int
 	WantWit  bool
 	Trace    bool
@@ -173,6 +174,7 @@ func (sh *Shared) RunPath(h *ssa.Function, prefix []Decision, s *solver.Solver, 
 		ps.MaxSteps = o.MaxSteps
 	}
 	ps.WantWit = o.WantWit
+	ps.KnownLabels = o.KnownLabels
 	i := &interpreter{
 		prog:     sh.Prog,
 		globals:  make(map[*ssa.Global]*value),
